@@ -138,4 +138,142 @@ type storeCore struct {
 		start:       start,''', '''	return &Flow{
 		start:       start,'''),
       why="Flow no longer embeds *BaseNode (a flow gets one attempt); the harness must still build"),
+    # ---- fourth review round, flows / nodes half ----
+    A("alt4-wait-by-sleeper-goroutine", ["C20", "C05", "C01", "C02"],
+      ("flyt.go", '''			select {
+			case <-time.After(wait):
+				// Continue with retry''', '''			waited := make(chan struct{})
+			go func() {
+				time.Sleep(wait)
+				waited <- struct{}{}
+			}()
+			select {
+			case <-waited:
+				// Continue with retry'''),
+      why="the retry wait is a sleeper goroutine and an unbuffered channel (after a cancellation in the wait the sleeper stays blocked: poor hygiene, but no property forbids it)"),
+    A("alt4-deadline-aware-retry-uses-last-error", ["C02", "C05", "C20", "C01", "C04"],
+      ("flyt.go", '''		if attempt > 0 && wait > 0 {
+			select {
+			case <-time.After(wait):
+				// Continue with retry''', '''		if attempt > 0 && wait > 0 {
+			if dl, ok := ctx.Deadline(); ok && time.Until(dl) < wait+100*time.Millisecond {
+				break
+			}
+			select {
+			case <-time.After(wait):
+				// Continue with retry'''),
+      why="the retry loop stops when the context's deadline is closer than the wait plus a margin and lets the fallback / the last attempt's error decide"),
+    A("alt4-execless-function-node-is-an-error", ["C19", "C01", "C02", "C17", "C18"],
+      ("flyt.go", '''		return result.Value(), nil
+	}
+	return n.BaseNode.Exec(ctx, prepResult)''', '''		return result.Value(), nil
+	}
+	return nil, fmt.Errorf("flyt: node has no exec function (use WithExecFunc or WithExecFuncAny)")'''),
+      why="a function-style node that was never given an exec function is a configuration error"),
+    A("alt4-submillisecond-wait-slept-no-recheck", ["C20"],
+      ("flyt.go", '''		if attempt > 0 && wait > 0 {
+			select {
+			case <-time.After(wait):
+				// Continue with retry''', '''		if attempt > 0 && wait > 0 && wait < time.Millisecond {
+			time.Sleep(wait)
+		} else if attempt > 0 && wait > 0 {
+			select {
+			case <-time.After(wait):
+				// Continue with retry'''),
+      why="sub-millisecond waits (below C20's quantified range) are slept out without a context check"),
+    A("alt4-prep-error-formatted-with-v", ["C10", "C01", "C02", "C03", "C05"],
+      ("flyt.go", '''		return "", fmt.Errorf("run: prep failed: %w", err)''', '''		return "", fmt.Errorf("run: prep failed: %v", err)'''),
+      why="violates C04 only (error identity); the other flow checks must not report it as theirs"),
+    A("alt4-flow-always-presents-default", ["C01", "C04", "C18", "C02", "C05", "C17"],
+      ("flyt.go", '''	if action, ok := execResult.(Action); ok {
+		return action, nil
+	}
+	return DefaultAction, nil
+}''', '''	_ = execResult
+	return DefaultAction, nil
+}'''),
+      why="violates C10 only (a flow used as a node always presents the default action; C03's nested part depends on C10's rule and reports it too, documented)"),
+    A("alt4-batch-starts-items-after-cancel", ["C20", "C02", "C04", "C05"],
+      ("batch.go", '''			if ctx.Err() != nil {
+				results[idx] = NewErrorResult(fmt.Errorf("context cancelled"))
+				return
+			}
+
+			execResult, err := runExecWithRetries(ctx, node, itm)''', '''			execResult, err := runExecWithRetries(ctx, node, itm)'''),
+      ("batch.go", '''	for attempt := 0; attempt < maxRetries; attempt++ {
+		if ctx.Err() != nil {
+			return nil, fmt.Errorf("context cancelled during retry: %w", ctx.Err())
+		}
+''', '''	for attempt := 0; attempt < maxRetries; attempt++ {
+		if attempt > 0 && ctx.Err() != nil {
+			return nil, fmt.Errorf("context cancelled during retry: %w", ctx.Err())
+		}
+'''),
+      why="violates C11 only (items are still started after the context is done); C20 speaks about retry waits"),
+    A("alt4-typed-error-handling-getter", ["C19", "C06", "C09", "C18"],
+      ("flyt.go", '''func (n *BaseNode) GetBatchErrorHandling() string {
+	n.mu.RLock()
+	defer n.mu.RUnlock()
+	if n.batchErrorHandling == "" {
+		return "continue" // default
+	}
+	return n.batchErrorHandling
+}''', '''func (n *BaseNode) GetBatchErrorHandling() ErrorHandling {
+	n.mu.RLock()
+	defer n.mu.RUnlock()
+	if n.batchErrorHandling == "" {
+		return ContinueOnError // default
+	}
+	return ErrorHandling(n.batchErrorHandling)
+}
+
+// ErrorHandling names a batch error handling strategy.
+type ErrorHandling string
+
+const (
+	ContinueOnError ErrorHandling = "continue"
+	StopOnError     ErrorHandling = "stop"
+)'''),
+      ("batch.go", '''	var errorHandling = "continue"
+''', '''	var errorHandling ErrorHandling = "continue"
+'''),
+      ("batch.go", '''func runBatchSequential(ctx context.Context, node Node, items []Result, results []Result, errorHandling string) {''', '''func runBatchSequential(ctx context.Context, node Node, items []Result, results []Result, errorHandling ErrorHandling) {'''),
+      ("batch.go", '''func runBatchConcurrent(ctx context.Context, node Node, items []Result, results []Result, concurrency int, errorHandling string) {''', '''func runBatchConcurrent(ctx context.Context, node Node, items []Result, results []Result, concurrency int, errorHandling ErrorHandling) {'''),
+      why="GetBatchErrorHandling returns a named string type; the harness must still build"),
+    A("alt4-builder-keeps-own-customnode", ["C02", "C17", "C07", "C06", "C19", "C18"],
+      ("batch.go", '''type BatchNodeBuilder struct {
+	*BatchNode
+}''', '''type BatchNodeBuilder struct {
+	*BatchNode
+	cn *CustomNode
+}'''),
+      ("batch.go", '''	return &BatchNodeBuilder{
+		BatchNode: &BatchNode{CustomNode: customNode},
+	}''', '''	return &BatchNodeBuilder{
+		BatchNode: &BatchNode{CustomNode: customNode},
+		cn:        customNode,
+	}'''),
+      ("batch.go", '''	WithMaxRetries(retries)(b.BaseNode)''', '''	WithMaxRetries(retries)(b.cn.BaseNode)'''),
+      ("batch.go", '''	WithWait(wait)(b.BaseNode)''', '''	WithWait(wait)(b.cn.BaseNode)'''),
+      ("batch.go", '''	b.batchConcurrency = n
+	return b''', '''	b.cn.batchConcurrency = n
+	return b'''),
+      ("batch.go", '''	if continueOnError {
+		b.batchErrorHandling = "continue"
+	} else {
+		b.batchErrorHandling = "stop"
+	}
+	return b''', '''	if continueOnError {
+		b.cn.batchErrorHandling = "continue"
+	} else {
+		b.cn.batchErrorHandling = "stop"
+	}
+	return b'''),
+      ("batch.go", '''func (b *BatchNodeBuilder) WithExecFunc(fn func(context.Context, Result) (Result, error)) *BatchNodeBuilder {
+	b.execFunc = fn''', '''func (b *BatchNodeBuilder) WithExecFunc(fn func(context.Context, Result) (Result, error)) *BatchNodeBuilder {
+	b.cn.execFunc = fn'''),
+      ("batch.go", '''func (b *BatchNodeBuilder) WithExecFuncAny(fn func(context.Context, any) (any, error)) *BatchNodeBuilder {
+	b.execFunc = func(''', '''func (b *BatchNodeBuilder) WithExecFuncAny(fn func(context.Context, any) (any, error)) *BatchNodeBuilder {
+	b.cn.execFunc = func('''),
+      why="the batch builder keeps its own pointer to the CustomNode it created and configures that one (replacing the exported embedded field afterwards has no effect on it)"),
 ]
